@@ -103,8 +103,51 @@ func newSpec(profile string, idx int, kind string, sh Shape, r *core.Rand) *Spec
 		ContDelayUs: [2]int{r.Range(1000, 3000), r.Range(1000, 3000)}, Short: map[string]int{}, Dist: map[string]any{}}
 }
 
-// seal computes short timeouts (15-25 ms exactly where an overrun is scripted) and the distribution facts.
+// Options are generator options that apply to every profile (flags of harness/cmd/engine). The zero value is
+// the behaviour every check had before the options existed: the same cases for the same (seed, profile, index).
+type Options struct {
+	// DeferredP: after a profile has generated its shape, every scope (the plan and each block) WITHOUT a deferred
+	// group gets one with this probability (1 action, retries 0..1; it fails with probability 0.2), drawn from a
+	// PRNG forked for this purpose only, so the rest of the case is the same as with DeferredP = 0.
+	DeferredP float64
+	// RaceStart k >= 2: Workstream.Start is called for the plan from k goroutines released together; exactly one
+	// call must succeed (dist/observed `start_ok`), the plan then runs as usual. A run option, not a generator one.
+	RaceStart int
+}
+
+var (
+	genOpts Options
+	genRand *core.Rand // the option PRNG of the case being generated (set by Generate)
+)
+
+// forceDeferred implements Options.DeferredP.
+func (sp *Spec) forceDeferred() {
+	n := 0
+	if genOpts.DeferredP > 0 && genRand != nil {
+		fr := genRand
+		for scope := -1; scope < len(sp.Shape.Blocks); scope++ {
+			gs := &sp.Shape.G
+			if scope >= 0 {
+				gs = &sp.Shape.Blocks[scope].G
+			}
+			if gs[GDeferred] != nil || !fr.Chance(genOpts.DeferredP) {
+				continue
+			}
+			rt := fr.Range(0, 1)
+			gs[GDeferred] = &Group{Retries: []int{rt}}
+			if fr.Chance(0.2) {
+				sp.Scripts[ChkPath(scope, GDeferred, 0)] = Script{failRun(fr, rt, false)}
+			}
+			n++
+		}
+	}
+	sp.Dist["forced_deferred"] = n
+}
+
+// seal applies the generator options, then computes short timeouts (15-25 ms exactly where an overrun is scripted)
+// and the distribution facts.
 func (sp *Spec) seal(r *core.Rand) *Spec {
+	sp.forceDeferred()
 	nonok, holds := 0, 0
 	hist := map[string]int{}
 	paths := make([]string, 0, len(sp.Scripts))
@@ -251,8 +294,10 @@ func perm(r *core.Rand, n int) []int {
 	return p
 }
 
-// Generate is the deterministic map (seed, profile, index) -> Spec.
-func Generate(seed uint64, profile string, idx int) *Spec {
+// Generate is the deterministic map (seed, profile, index, options) -> Spec. Not safe for concurrent use.
+func Generate(seed uint64, profile string, idx int, o Options) *Spec {
+	genOpts = o
+	genRand = core.NewRand(seed).Fork(uint64(idx)).Fork(0xdefe77ed)
 	r := core.NewRand(seed).Fork(uint64(idx)).Fork(uint64(len(profile))*131 + uint64(profile[0]))
 	switch profile {
 	case "order":
@@ -713,14 +758,36 @@ func genCont(r *core.Rand, idx int) *Spec {
 		sh.Blocks[fb].G[GCont] = &Group{Retries: []int{r.Range(0, 1)}}
 	}
 	k := (idx / 3) % 7 // 0 = no failure, 1..6 = the failing run
+	scope := -1        // the scope whose continuous group fails
+	if k > 0 && (where == 1 || (where == 2 && r.Chance(0.5))) {
+		scope = fb
+	}
+	tb := 0 // the block during which run k is to happen
+	if scope >= 0 {
+		tb = scope
+	}
+	// The result channel has capacity 1 and is read once per sequence launch (by a select that picks the other,
+	// closed or ready, channel half of the time): while nothing is launched the thread completes at most 2 runs.
+	// Run k >= 4 therefore needs about 2(k-3) further launches in block tb: give it that many one-action
+	// sequences, launched one at a time.
+	if k >= 4 {
+		b := &sh.Blocks[tb]
+		for need := 2*(k-3) + 4; len(b.Seqs) < need; {
+			b.Seqs = append(b.Seqs, []int{r.Range(0, 1)})
+		}
+		b.Conc, b.Tol = 1, -1
+		if r.Chance(0.3) {
+			b.Conc = 2
+		}
+	}
 	sp := newSpec("cont", idx, fmt.Sprintf("where=%s-k=%d", []string{"plan", "block", "both"}[where], k), sh, r)
 	randomScripts(sp, r, 0.05, 0.08, 0, false)
 	failBypasses(sp, r, 0.9)
+	d := sp.ContDelayUs[1] // period of the failing group
+	if scope < 0 {
+		d = sp.ContDelayUs[0]
+	}
 	if k > 0 {
-		scope := -1
-		if where == 1 || (where == 2 && r.Chance(0.5)) {
-			scope = fb
-		}
 		gs := sh.G
 		if scope >= 0 {
 			gs = sh.Blocks[scope].G
@@ -729,17 +796,27 @@ func genCont(r *core.Rand, idx int) *Spec {
 		sp.Scripts[ChkPath(scope, GCont, i)] = contFailAt(r, k, gs[GCont].Retries[i])
 		sp.Dist["cont_fail_scope"] = map[bool]string{true: "plan", false: "block"}[scope < 0]
 	}
-	// every sequence's first action is held; the director releases them one at a time with pauses of 0..2.5
-	// continuous-check periods, so the k-th run falls before/after each sequence boundary, and (last release)
-	// into the window between the last poll and the drain.
+	// Every sequence's first action is held; the director releases them one at a time. Before the FIRST release
+	// in block tb it holds for about min(k-1, 2) periods (+- half a period), so that run k <= 3 falls just before
+	// or just after the first sequence boundary; the later releases are 0..2.5 periods apart (k >= 4: 1.1..1.9,
+	// so that a run completes between two launches): run k then falls before/after the later boundaries and,
+	// with the last release, into the window between the last poll and the drain. Total hold <= ~100 ms.
 	g := 0
 	for b, bl := range sh.Blocks {
 		for q := range bl.Seqs {
 			g++
 			setGate(sp, SeqPath(b, q, 0), 0, 0, g)
-			d := sp.ContDelayUs[1]
-			sp.Sched = append(sp.Sched, DirStep{Wait: Cond{Kind: "parked", Gates: []int{g}, N: 1}, MaxWaitMs: 4,
-				SleepUs: r.Intn(d*5/2 + 1), Open: []int{g}, Note: fmt.Sprintf("release block %d sequence %d", b, q)})
+			st := DirStep{Wait: Cond{Kind: "parked", Gates: []int{g}, N: 1}, MaxWaitMs: 4,
+				SleepUs: r.Intn(d*5/2 + 1), Open: []int{g}, Note: fmt.Sprintf("release block %d sequence %d", b, q)}
+			if k >= 4 && b == tb {
+				st.SleepUs = d * r.Range(110, 190) / 100
+			}
+			if k >= 2 && b == tb && q == 0 {
+				st.MaxWaitMs = 25
+				st.SleepUs = max(0, min(k-1, 2)*d+d*r.Range(-50, 50)/100)
+				st.Note += fmt.Sprintf(" after holding for about %d periods", min(k-1, 2))
+			}
+			sp.Sched = append(sp.Sched, st)
 		}
 	}
 	sp.Dist["cont_fail_run"] = k
